@@ -428,7 +428,7 @@ PLAN = {
     "C18": dict(
         level="other",
         functions=[AN + f for f in ("aggregate_current", "aggregate_power", "total_energy_delivered", "total_energy_requested",
-                                    "proportion_of_energy_delivered", "proportion_of_demands_met", "energy_cost", "demand_charge")]
+                                    "proportion_of_energy_delivered", "proportion_of_demands_met", "energy_cost", "demand_charge", "datetimes_array")]
                   + [NET + "constraint_current"],
         bounded=[dict(module="rt.netmon", fn="analysis_monitor", label="analysis functions against first-principles recomputation on completed simulations")],
         text="PROVED (all recorded trajectories, voltages, session histories, thresholds; no bound), each function against its first-principles "
